@@ -77,7 +77,9 @@ def crash_exec(prog: Program, knobs: Any, seed: int, ref: dict[str, Any], points
         res = ex.run(max_steps=budget, on_crash=on_crash)
         fs, h = ex.finish()
         vs = judge(prog, ref, ex, res, fs, h)
-        return {"violations": vs, "digest": history_digest(h), "fired": len(w.crashes),
+        from .common import state_hashes
+
+        return {"state_hashes": state_hashes(h), "violations": vs, "digest": history_digest(h), "fired": len(w.crashes),
                 "faults": dict(w.faults_fired), "probes": dict(w.probes), "sim_us": w.clock.us,
                 "steps": res.steps}
     finally:
@@ -216,6 +218,7 @@ def run_one(seed: int, tier: str) -> dict[str, Any]:
         out["execs"] += 1
         out["sim_us"] += r["sim_us"] - 1_893_456_000_000_000
         out["digests"][r["digest"]] = r["fired"] > 0
+        out.setdefault("state_hashes", set()).update(r.get("state_hashes") or ())
         for a, b in r["faults"].items():
             out["faults"][a] = out["faults"].get(a, 0) + b
         out["stats"]["crash_points"] = out["stats"].get("crash_points", 0) + 1
